@@ -1,12 +1,14 @@
 import HapModel.Model.Cli
+import HapModel.Model.CliParse
 import HapModel.Model.Obj
 /-!
 # C19 — CLI and Python entry points agree; list-in-file options equal repeated options   (PARTIAL)
 
 Model: `Cli.resolveSamples` / `Cli.resolveIds` = the option post-processing of transform, simphenotype and ld in
-`__main__.py`; unknown IDs are handled by the by-ID subset of C12 (`Cache.specPositions`).  click's own parsing and
-exit-code policy are trusted; the plumbing of every CLI parameter to the API parameter of the same name is checked
-by running both entry points on the same inputs.
+`__main__.py`; unknown IDs are handled by the by-ID subset of C12 (`Cache.specPositions`).  `CliParse.parse` = click's option parser on the documented
+argument forms over the option table the harness reads off `__main__.py` on every run; `CliParse.splitLines` = the
+`read().splitlines()` of the list files.  click's type conversion and exit-code policy are trusted; the plumbing of
+every CLI parameter to the API parameter of the same name is checked by running both entry points on the same inputs.
 -/
 namespace C19
 open Cli
@@ -44,5 +46,59 @@ theorem unknown_ids_dropped (ids req : List String) :
     subst h
     exact ⟨hid, by simpa using hc⟩
   · cases h
+
+/-- a list file with one name per line (each followed by a newline) holds exactly the names written, for every list of
+    names free of "\n" and "\r" — empty list, empty names, duplicates and names holding any other character included -/
+theorem file_holds_names (xs : List (List Char)) (h : ∀ x ∈ xs, CliParse.Clean CliParse.nlBreak x) :
+    CliParse.readLines (CliParse.fileOf xs) = xs :=
+  CliParse.splitGo_fileOf CliParse.nlBreaks xs h
+
+/-- the same without the final newline (last name not empty), and with Windows line ends -/
+theorem file_holds_names_other_line_ends (xs : List (List Char)) (last : List Char)
+    (h : ∀ x ∈ xs, CliParse.Clean CliParse.nlBreak x) (hl : CliParse.Clean CliParse.nlBreak last) (hne : last ≠ []) :
+    CliParse.readLines (CliParse.fileOf xs ++ last) = xs ++ [last] ∧
+    CliParse.readLines (xs.flatMap (fun x => x ++ ['\r', '\n'])) = xs :=
+  ⟨CliParse.splitGo_joined CliParse.nlBreaks xs last h hl hne, CliParse.splitGo_crlf CliParse.nlBreaks xs h⟩
+
+/-- F29 (fixed in /repo): read with `str.splitlines`, a name holding one of its other separators (here U+0085) was cut in
+    two by the file form; read line by line it is kept -/
+theorem splitlines_cut_names_before_fix :
+    CliParse.splitLines (CliParse.fileOf [['a', Char.ofNat 0x85, 'b']]) = [['a'], ['b']] ∧
+    CliParse.readLines (CliParse.fileOf [['a', Char.ofNat 0x85, 'b']]) = [['a', Char.ofNat 0x85, 'b']] := by
+  decide
+
+/-- **file form = repeated form, end to end**: `--samples-file f` with `f` holding the names `xs` hands the entry point
+    what `--sample x₁ --sample x₂ …` hands it -/
+theorem samples_file_eq_repeated_end_to_end (xs : List (List Char)) (h : ∀ x ∈ xs, CliParse.Clean CliParse.nlBreak x)
+    (hne : xs ≠ []) :
+    resolveSamples [] (some ((CliParse.readLines (CliParse.fileOf xs)).map String.ofList)) =
+    resolveSamples (xs.map String.ofList) none := by
+  rw [file_holds_names xs h]
+  have : xs.map String.ofList ≠ [] := by simpa using hne
+  simp [resolveSamples, this]
+
+/-- **short and long spellings**: over an unambiguous option table every mixture of spellings of the same options, values
+    and positionals is parsed to the same options — namely the ones meant -/
+theorem every_spelling_parses_to_its_meaning (T : List CliParse.Decl) (h : CliParse.tableOK T = true)
+    (items : List CliParse.Item) (hv : ∀ it ∈ items, it.Valid T) :
+    CliParse.parse T none (CliParse.render items) = .ok (CliParse.meaning items) :=
+  CliParse.parse_render T h items hv
+
+theorem spellings_are_interchangeable (T : List CliParse.Decl) (h : CliParse.tableOK T = true)
+    (a b : List CliParse.Item) (ha : ∀ it ∈ a, it.Valid T) (hb : ∀ it ∈ b, it.Valid T) (hs : CliParse.SameL a b) :
+    CliParse.parse T none (CliParse.render a) = CliParse.parse T none (CliParse.render b) := by
+  rw [CliParse.parse_render T h a ha, CliParse.parse_render T h b hb, CliParse.meaning_congr a b hs]
+
+/-- non-vacuity: a two-row table, `-s x --no-normalize g.vcf` against `--sample x --no-normalize g.vcf` -/
+def exampleTable : List CliParse.Decl :=
+  [⟨"samples", .multi, ["-s", "--sample"], []⟩, ⟨"normalize", .flag, ["--normalize"], ["--no-normalize"]⟩]
+
+example :
+    CliParse.tableOK exampleTable = true ∧
+    (CliParse.parse exampleTable none ["-s", "x", "--no-normalize", "g.vcf"]).toOption =
+      some ([.add "samples" "x", .flag "normalize" false], ["g.vcf"]) ∧
+    (CliParse.parse exampleTable none ["--sample", "x", "--no-normalize", "g.vcf"]).toOption =
+      some ([.add "samples" "x", .flag "normalize" false], ["g.vcf"]) := by
+  decide
 
 end C19
